@@ -78,6 +78,17 @@ Theorem C10_dft2_same_as_in_fresh_state :
 Proof. exact dft2_fresh. Qed.
 Print Assumptions C10_dft2_same_as_in_fresh_state.
 
+(* the other operation with a coordinate-cache phase, propagate_dft: in every valid state the contents of the
+   propagated fields are [prop_vals]: a function of the current field contents, their accumulated tilt shifts
+   and the shapes - the cache does not appear *)
+Theorem C10_propagate_dft_is_a_function_of_its_arguments :
+  forall (K : kernels) (s : state) (w : nat) (z : Z) (keys : list key) (jw : oid) (fs : list field),
+  inv s -> getobj s w = Some (jw, Wave fs) ->
+  result_values (fst (step K s (OPropDft w z keys))) (snd (step K s (OPropDft w z keys)))
+  = Some (prop_vals K s z fs (map coords (firstn (length fs) keys))).
+Proof. exact step_prop_values. Qed.
+Print Assumptions C10_propagate_dft_is_a_function_of_its_arguments.
+
 (* every operation without a coordinate-cache phase that takes no unseeded random draw runs identically
    (same heap, objects, registers, same outcome) whatever the cache and the generator hold *)
 Theorem C10_unaffected_by_hidden_state :
